@@ -7,7 +7,7 @@ from . import l2
 import fastavro._write_py as W
 import fastavro._read_py as R
 
-UNION_SCHEMAS = ["union_rec_alldefault", "union_empty_rec", "union_two_enums_one_rec", "union_float_dictdouble", "union_recs_by_ref", "union_nested_arrays", "union_prims", "union_two_recs", "union_named_mix", "union_arr_map", "union_float_double",
+UNION_SCHEMAS = ["union_same_short_names", "union_enum_two_similar_recs", "union_rec_alldefault", "union_empty_rec", "union_two_enums_one_rec", "union_float_dictdouble", "union_recs_by_ref", "union_nested_arrays", "union_prims", "union_two_recs", "union_named_mix", "union_arr_map", "union_float_double",
                  "union_overlap", "union_in_array_named", "union_map_rec", "pair_union_enum", "pair_union_fixed",
                  "pair_union_record", "pair_union_array", "pair_union_map", "pair_array_union", "pair_map_union",
                  "pair_field_union", "chain_arr_union_map", "chain_rec_union_rec_arr", "rec_list", "rec_mutual",
@@ -15,7 +15,7 @@ UNION_SCHEMAS = ["union_rec_alldefault", "union_empty_rec", "union_two_enums_one
 QUICK = ["union_prims", "union_two_recs", "union_named_mix", "union_float_double", "union_overlap", "union_recs_by_ref",
          "union_nested_arrays",
          "union_in_array_named", "union_map_rec", "pair_union_record", "pair_array_union", "rec_list",
-         "chain_rec_union_rec_arr", "union_arr_map", "union_rec_alldefault", "union_empty_rec", "union_two_enums_one_rec", "union_float_dictdouble"]
+         "chain_rec_union_rec_arr", "union_arr_map", "union_rec_alldefault", "union_empty_rec", "union_two_enums_one_rec", "union_float_dictdouble", "union_same_short_names", "union_enum_two_similar_recs"]
 
 
 def _written(fo):
@@ -72,12 +72,13 @@ def ob_choice(c, v, hs, dtn):
     return True, ""
 
 
-AMBIGUOUS = {"union_two_enums_one_rec"}  # several named branches accept the same bare value
+# several named branches accept the same bare value: closure is asserted when the reporting option that names them is on
+AMBIGUOUS = {"union_two_enums_one_rec": "rnt", "union_same_short_names": "any", "union_enum_two_similar_recs": "any"}
 
 
 def ob_closure(c, v, rrn, rrno, rnt, rnto):
     """reading with name reporting and writing the result back reproduces the identical output"""
-    if c["name"] in AMBIGUOUS and not rnt:
+    if c["name"] in AMBIGUOUS and not (rnt or (AMBIGUOUS[c["name"]] == "any" and rrn)):
         return True, "statement silent: closure is stated for named-type reporting"
     try:
         # ambiguous named branches: the first write names its branch with a (name, value) hint, otherwise the later
